@@ -5,6 +5,7 @@ mod ops;
 mod ctxgen;
 mod jit;
 mod remap;
+mod shapes;
 
 use fidget_core::compiler::{RegOp, RegTape, SsaOp, SsaTape};
 use fidget_core::eval::{BulkEvaluator, Function, TracingEvaluator};
